@@ -6,6 +6,7 @@ Line-protocol driver for C01. Requests are `<op> <int> …`.
 
   order  N (id z iso(0=None) charge radical implH(-1=None) inRing deg (nbr order)^deg)^N     Morgan.atoms_order
   morgan K (n w)^K B (n deg (m b)^deg)^B                                                     _morgan(atoms, bonds)
+  cmorgan N (id z iso charge radical implH inRing stereo(-1|0|1) deg (nbr order bstereo(-1|0|1))^deg)^N           _chiral_morgan
   hash   z iso charge radical implH inRing                                                   hash(atom)  (Element.__hash__)
   tuple  i0 i1 …                                                                             hash((i0, i1, …))
 
@@ -42,6 +43,25 @@ def parseView (xs : List Int) : Option MolView :=
     | _ => none
   | [] => none
 
+def parseNbS : Nat → List Int → Option (List (Nat × Bond) × List Int)
+  | 0, rest => some ([], rest)
+  | k + 1, m :: b :: st :: rest => do
+    let (tl, r) ← parseNbS k rest
+    some ((m.toNat, ({ order := b.toNat, stereo := tri st } : Bond)) :: tl, r)
+  | _, _ => none
+
+/-- rows: (id, atom, labelled?, neighbours) -/
+def parseViewAtomsS : Nat → List Int → Option (List (Nat × HAtom × Bool × List (Nat × Bond)) × List Int)
+  | 0, rest => some ([], rest)
+  | k + 1, id :: z :: iso :: ch :: rad :: h :: ring :: st :: deg :: rest => do
+    if deg < 0 then none
+    let (nb, r1) ← parseNbS deg.toNat rest
+    let (tl, r2) ← parseViewAtomsS k r1
+    let a : HAtom := { z := z.toNat, isotope := if iso ≤ 0 then none else some iso.toNat, charge := ch,
+                       radical := rad != 0, implH := optNat h, inRing := ring != 0 }
+    some ((id.toNat, a, decide (st ≥ 0), nb) :: tl, r2)
+  | _, _ => none
+
 def parseWeights : Nat → List Int → Option (Weights × List Int)
   | 0, rest => some ([], rest)
   | k + 1, n :: w :: rest => do
@@ -68,6 +88,20 @@ def handleInts (op : String) (xs : List Int) : Option String :=
     match atomsOrderPy m with
     | some r => some (showRanks r)
     | none => some "err KeyError"
+  | "cmorgan" =>
+    match xs with
+    | n :: rest =>
+      if n < 0 then none else
+      match parseViewAtomsS n.toNat rest with
+      | some (rows, []) =>
+        let m : MolView := ⟨rows.map (fun r => (r.1, r.2.1)), rows.map (fun r => (r.1, r.2.2.2))⟩
+        let labelled := (rows.filter (fun r => r.2.2.1)).map (·.1)
+        match chiralMorgan pyHashTuple m labelled with
+        | .ranks r => some (showRanks r)
+        | .keyError => some "err KeyError"
+        | .notModelled => some "notmodelled"
+      | _ => none
+    | [] => none
   | "morgan" =>
     match xs with
     | k :: rest => do
